@@ -203,10 +203,21 @@ def block_len(first_line, headers):
 
 
 def status_line(r, status, reason=None):
+    """-> (bytes, minor, reason)"""
     minor = r.weighted([(1, 8), (0, 3), (r.range(2, 99), 1)])
     if reason is None:
         reason = r.choice([b" OK", b" Not Found", b"", b" ", b" " + rand_text(r, 1, 40, PRINT + b" \t")])
-    return b"HTTP/1.%d %d" % (minor, status) + reason
+    return b"HTTP/1.%d %d" % (minor, status) + reason, minor, reason
+
+
+def wfb_line(minor, status, reason, headers):
+    """a header block as a value (Spec.HttpResp.Block)"""
+    hl = ",".join("%s:%s:%s:%s" % (hx(n), hx(v), hx(a), hx(b)) for n, a, v, b in headers) or "-"
+    return "wfb %d %d %s %s" % (minor, status, hx(reason), hl)
+
+
+def pieces_token(body):
+    return ",".join("%s*%d" % (hx(p), c) for p, c in body.pieces) or "-"
 
 
 def seg_choice(r, total, tier, hdr=None):
@@ -273,10 +284,12 @@ def limit_choice(r, bodylen):
 
 
 # ------------------------------------------------------------------------------- well-formed
-def emit_chunked(r, st, body, big_chunks):
-    """chunk sizes from 1 byte up to above the wait cap; extensions; trailers"""
+def emit_chunked(r, st, body, big_chunks, canonical=False):
+    """chunk sizes from 1 byte up to above the wait cap; extensions; trailers.
+    -> (sizes, exts, lastext, tail)"""
     pos = 0
     sizes = []
+    exts = []
     while pos < body.size:
         left = body.size - pos
         k = r.below(10)
@@ -296,22 +309,30 @@ def emit_chunked(r, st, body, big_chunks):
         ext = b""
         if r.chance(1, 4):
             ext = b";" + rand_token(r, 1, 8) + (b"=" + rand_token(r, 1, 8) if r.chance(1, 2) else b"")
-        st.add(hexnum(r, n) + ext + b"\r\n")
+        st.add((b"%x" % n if canonical else hexnum(r, n)) + ext + b"\r\n")
         body.emit(st, pos, n)
         st.add(b"\r\n")
         pos += n
         sizes.append(n)
-    st.add(r.choice([b"0", b"0", b"00", b"0;last"]) + b"\r\n")
+        exts.append(ext)
+    last = r.choice([b"0", b"0", b"0;last"] if canonical else [b"0", b"0", b"00", b"0;last"])
+    st.add(last + b"\r\n")
+    tail = b""
     if r.chance(1, 4):
-        st.add(b"X-Trailer: " + rand_token(r, 1, 9) + b"\r\n")
-    st.add(b"\r\n")
-    return sizes
+        tail += b"X-Trailer: " + rand_token(r, 1, 9) + b"\r\n"
+    tail += b"\r\n"
+    st.add(tail)
+    return sizes, exts, last[1:], tail
 
 
 def one_wf(r, tier, directed=None):
     """-> (ops, tags).  directed: None | 'interim-long' | 'chunk-at-limit' | 'align'"""
     st = Stream()
     tags = ["wf"]
+    # canonical spelling of numerals and framing headers: the response is also sent as a value (wfb/wff ops)
+    # and pmodel checks Spec.serialize(value) = stream and decode = value
+    canonical = r.chance(3, 4)
+    wfops = []
     # interim 1xx responses
     ninterim = r.weighted([(0, 6), (1, 2), (2, 1), (r.range(3, 40), 1)])
     if directed == "interim-long":
@@ -330,10 +351,12 @@ def one_wf(r, tier, directed=None):
     headers = gen_headers(r, nh)
     fpos = r.below(len(headers) + 1)
     if framing == "length":
-        headers.insert(fpos, (b"Content-Length", rand_ows(r), r.choice([b"%d", b"%d", b"0%d", b"+%d"]) % size, rand_ows(r)))
+        headers.insert(fpos, (b"Content-Length", rand_ows(r),
+                              (b"%d" if canonical else r.choice([b"%d", b"%d", b"0%d", b"+%d"])) % size, rand_ows(r)))
     elif framing == "chunked":
-        headers.insert(fpos, (b"Transfer-Encoding", rand_ows(r), r.choice([b"chunked", b"chunked", b"gzip, chunked"]), rand_ows(r)))
-    first = status_line(r, status)
+        headers.insert(fpos, (b"Transfer-Encoding", rand_ows(r),
+                              b"chunked" if canonical else r.choice([b"chunked", b"chunked", b"gzip, chunked"]), rand_ows(r)))
+    first, fminor, freason = status_line(r, status)
     # the client rejects header blocks above MAXHDR: a well-formed response stays below
     cap = 30000 if ninterim else 60000
     total = block_len(first, headers)
@@ -352,12 +375,14 @@ def one_wf(r, tier, directed=None):
     hdrmax = final_len
     for i in range(ninterim):
         ih = gen_headers(r, r.range(0, 3))
-        il = status_line(r, r.weighted([(100, 4), (r.range(101, 199), 2), (199, 1)]))
+        istatus = r.weighted([(100, 4), (r.range(101, 199), 2), (199, 1)])
+        il, iminor, ireason = status_line(r, istatus)
         if directed == "interim-long" or r.chance(1, 3):
             # longer than the final header block (stale-hepos case)
             ih.append((b"X-Pad", b" ", b"p" * (final_len + r.range(0, 50)), b""))
         hdrmax = max(hdrmax, block_len(il, ih))
         emit_block(st, il, ih)
+        wfops.append(wfb_line(iminor, istatus, ireason, ih))
     if directed == "align":
         # put the end of the header block a few bytes around the reader's 4096-byte buffer end
         target = r.choice([RBUF, 2 * RBUF]) + r.range(-6, 6)
@@ -366,24 +391,32 @@ def one_wf(r, tier, directed=None):
             headers.append((b"X-Align", b" ", b"a" * pad, b""))
             hdrmax = max(hdrmax, block_len(first, headers))
     emit_block(st, first, headers)
+    wfops.append(wfb_line(fminor, status, freason, headers))
     tags.append("interim=%s" % ("0" if ninterim == 0 else "1-2" if ninterim <= 2 else "3+"))
     tags.append("nhdr=%s" % ("0" if nh == 0 else "<=6" if nh <= 6 else "<=60" if nh <= 60 else "200+"))
     if bodiless:
         tags.append("framing=bodiless(%s)" % ("HEAD" if ishead else status))
         explen = 0
+        wfops.append("wff none")
     else:
         tags.append("framing=" + framing)
         explen = size
         if framing == "length":
             body.emit(st, 0, size)
+            tail = b""
             if r.chance(1, 5):
-                st.add(rand_text(r, 1, 20))         # bytes after the body are not the client's business
+                tail = rand_text(r, 1, 20)         # bytes after the body are not the client's business
+                st.add(tail)
+            wfops.append("wff length %s %s" % (pieces_token(body), hx(tail)))
         elif framing == "chunked":
-            sizes = emit_chunked(r, st, body, True)
+            sizes, exts, lastext, tail = emit_chunked(r, st, body, True, canonical)
             if sizes and max(sizes) > WAITCAP:
                 tags.append("chunk>1MiB")
+            wfops.append("wff chunked %s %s %s %s" % (
+                ",".join("%d:%s" % (n, hx(e)) for n, e in zip(sizes, exts)) or "-", hx(lastext), hx(tail), pieces_token(body)))
         else:
             body.emit(st, 0, size)
+            wfops.append("wff close %s" % pieces_token(body))
         tags.append("body=%s" % ("0" if size == 0 else "<=8" if size <= 8 else "<4094" if size < RBUF - 2 else
                                  "~4096" if size <= RBUF + 60 else "<=40000" if size <= 40000 else
                                  "<1MiB" if size < WAITCAP - 1 else ">=1MiB"))
@@ -399,6 +432,10 @@ def one_wf(r, tier, directed=None):
     if r.chance(1, 6) and not (framing == "close" and not bodiless):
         ops.append("end reset")          # a reset after a complete framed response changes nothing
     ops.append(req_line(req, limit))
+    if canonical:
+        tags.append("value-checked")
+        ops[0] = "tag " + " ".join(tags)
+        ops += wfops
     conn = r.weighted([(0, 6), (1, 1)])
     sndmax = r.choice([0, 0, 0, 1, 7, 100, 4096])
     if len(req[3]) > 1000 and sndmax == 1:
